@@ -35,7 +35,7 @@ def check(run):
             run.sample(ev)
     run.cov.update(evaluations=n, distinct_nontrivial=ncells, exhaustive=True, traces_validated_against_impl=n,
                    rule="the whole matrix of NilMatrix.tla: 66 helpers x 15 nil kinds at top level, 14 container helpers x 15 nil kinds x "
-                        "{list member, property} each on 4 container values; outcome class and callback argument class observed with "
+                        "{list member (between real members and as the only member), property (4 hand-built holders and every item-typed property of every struct type, one at a time)}; outcome class and callback argument class observed with "
                         "recover() and judged by NilMatrixTrace.tla")
     run.assumptions += ["any neutral value (nil, empty, false, zero bytes, null) or an error is accepted where the statement does not fix the answer"]
 
